@@ -302,6 +302,8 @@ class MemSegment(base.Segment):
         self._invindex = {}
         self._terminfos = {}
         self._lock = Lock()
+        # Set by BufferedWriter once the documents were written to the index
+        self.flushed = False
 
     def codec(self):
         return self._codec
